@@ -148,6 +148,10 @@ def run(ck, prefixes, *, ns_ops, sim, probes_n, probe_sample, cover=None):
                     steps.append({"act": st["act"], "name": list(st["name"]), "name2": list(st["name2"]),
                                   "ref": [], "pat": [], "lsub": False})
                 jobs.append(("history", f"edge{i}", steps + tail, 1))
+                # ... and once more with the transition under test naming its mailbox in the other spelling
+                # the server accepts for it (one leading "/")
+                if steps and steps[-1]["act"] in ("Create", "Delete", "Rename", "Subscribe", "Unsubscribe"):
+                    jobs.append(("history", f"edge{i}/", steps[:-1] + [dict(steps[-1], alias=True)] + tail, 1))
         if probes_n:
             r = tlc.run("NsProbes", PROBE_CFG.format(n=probes_n), workers=1, timeout=600)
             if r.rc != 0:
